@@ -7,7 +7,9 @@ def unsafe_decode(string):
 
 def decode(string):
   validate_encoded(string)
-  return unsafe_decode(string)
+  obj = unsafe_decode(string)
+  validate_decoded(obj)
+  return obj
 
 def validate_encoded(string):
   if not re.match(r"^[!-)+-<>-~][!-~]*[+-](,[!-)+-<>-~][!-~]*[+-])*$", string):
